@@ -108,7 +108,15 @@ def reference(cfg):
 def call_helper(f, n, s):
     import checkpoint_schedules.mixed as mx
     import checkpoint_schedules.multistage as ms
+    from .common import timed
     try:
+        timed("c15-helper", lambda: _call_helper(f, n, s, mx, ms), 20)
+    except Exception:
+        pass
+
+
+def _call_helper(f, n, s, mx, ms):
+    if True:
         if f == 1:
             ms.optimal_steps_binomial(n, s)
         elif f == 2:
@@ -121,26 +129,28 @@ def call_helper(f, n, s):
             for s2 in (1, 2, 3):
                 ms.allocate_snapshots(n + 1, 1, s2, write_weight=0.0, read_weight=1.0)
                 ms.allocate_snapshots(n + 3, 2, s2, trajectory="revolve", delete_weight=1.0)
-    except Exception:
-        pass
 
 
 def replay(histories, cfgs, refbase):
     """All histories in this one interpreter, in order."""
     record.lib()
+    from .common import timed, Hung
     out = []
     for h in histories:
         objs = []
         for op in h:
-            if op[0] == 1:
-                objs.append(Obj(cfgs[op[1] - 1]))
-                objs[-1].ci = op[1] - 1
-            elif op[0] == 2:
-                objs[op[1] - 1].next()
-            elif op[0] == 3:
-                objs[op[1] - 1].obs()
-            else:
-                call_helper(op[1], op[2], op[3])
+            try:        # a library call that never returns must not hang the check (C09/C17 report hangs)
+                if op[0] == 1:
+                    objs.append(timed("c15-build", lambda: Obj(cfgs[op[1] - 1]), 120))
+                    objs[-1].ci = op[1] - 1
+                elif op[0] == 2:
+                    timed("c15-next", objs[op[1] - 1].next, 60)
+                elif op[0] == 3:
+                    timed("c15-obs", objs[op[1] - 1].obs, 60)
+                else:
+                    call_helper(op[1], op[2], op[3])
+            except Hung as ex:
+                raise fw.Machinery(f"the library does not return ({ex}); history-independence cannot be examined")
         for o in objs:
             t = o.d.trace()
             t["ref"] = o.ci
